@@ -137,7 +137,7 @@ def _parse_call(msg, lemma):
         return None
 
 
-def run(lemmas, preamble, timeout=60, shards=None, label="xh", keep=False, extra_env=None, per_path_timeout=None):
+def run(lemmas, preamble, timeout=60, shards=None, label="xh", keep=False, extra_env=None, per_path_timeout=None, unblock=False):
     """Run all lemmas; returns (dict id -> Result, stats)."""
     t0 = time.time()
     lemmas = list(lemmas)
@@ -175,7 +175,10 @@ def run(lemmas, preamble, timeout=60, shards=None, label="xh", keep=False, extra
         path, spans, bucket = item
         n_cond = sum(2 if l.twin else 1 for l in bucket)
         hard = timeout * n_cond + 120
-        cmd = [PY, "-m", "crosshair", "check", "--report_all", "--per_condition_timeout", str(timeout)]
+        cmd = [PY, "-m", "crosshair", "check"]
+        if unblock:  # lemma bodies that write scratch files (generator runs into a temporary output directory)
+            cmd += ["--unblock", "EVERYTHING"]
+        cmd += ["--report_all", "--per_condition_timeout", str(timeout)]
         if per_path_timeout:
             cmd += ["--per_path_timeout", str(per_path_timeout)]
         cmd.append(path)
